@@ -21,7 +21,7 @@ CHECKS = {
     "C06": "engine", "C07": "engine", "C08": "engine", "C09": "engine", "C13": "engine",
     "C01": "engine", "C02": "engine", "C03": "engine", "C04": "engine", "C05": "engine", "C14": "engine", "C15": "engine",
     "C41": "engine", "C16": "engine", "C36": "engine",
-    "C33": "webpush", "C32": "access", "C19": "analyzer", "C20": "analyzer",
+    "C33": "webpush", "C32": "access", "C19": "analyzer", "C20": "analyzer", "C40": "tickatomic",
 }
 
 MC = "model_checking"
@@ -31,6 +31,17 @@ EXP = "exploration"
 INTERP_TRUST = "Trusted: the harness-side observation (property descriptors on ast.Node flags, wrappers around PInterpreter.tick / _is_awaiting_threshold / _try_activate_node and Tracking._add_record_state, none of them in /repo), exact rational re-evaluation of clocks and conditions from the values every observer reads, virtual time. The monitor state is the implementation's flags; the clauses relate them to the program structure."
 
 CLAIMS = {
+    "C40": (MC, "TLA+ spec TickAtomic.tla (tick thread over the scheduling points of Engine.tick, request thread with / without the "
+                "engine lock; TLC verifies Atomic with the lock and finds the race without it) + two-thread experiments on the real "
+                "Engine at every scheduling point (hooks cb22a867), judged by TickAtomicTrace.tla",
+            "2 scenarios x 5 request kinds (edit, inject, control, cancel, force) x the 9 points TLC's graph names (before-read, "
+            "before-lock, locked, interpreter sub-tick (1st and 2nd), after-interpreter, before-commands, after-commands, unlocked, "
+            "between ticks): the request thread is started when the tick thread stands at the point; a request issued inside the "
+            "critical section must wait for the tick, the tick must not raise, the request must complete, and the state after 8 "
+            "more ticks must equal that of one of the two sequential executions on fresh engines.",
+            "Trusted: the 0.12 s grace given to the request thread (a request that still runs after it is taken to wait for the "
+            "lock), virtual time, the digest of observable state. The hooks are add-only calls to a no-op unless OPENPECTUS_VERIF=1.",
+            "7 C40"),
     "C19": (EXP, "TLA+ grammar Analyzer.tla enumerates instruction lines with the verdict the analysis owes (mustFlag; TLC initial states, "
                  "1134 lines); each is linted by the real lsp_analysis.lint against the definitions the real engine publishes; "
                  "AnalyzerTrace.tla compares",
